@@ -1430,7 +1430,7 @@ class Covout:
         if self._interactions:
             for k, v in self._interactions.items():
                 self._interactions[k] = v + self.sigma * np.random.randn(1)[0]
-            tokens = ["%s=%.4f" % ("+".join(k), v) for k, v in self._interactions.items()]
+            tokens = ["%s=%.16g" % ("+".join(k), v + self.baseline) for k, v in self._interactions.items()]  # The string stores outcomes (the dict stores outcome - baseline)
             self.imp_interaction = ",".join(tokens)
 
         self.update_outcomes()
